@@ -59,7 +59,7 @@ func genC12(x *Ctx) *c12Scen {
 	rootPerm := tp.Perm(len(c12Roots))
 	rid := 0
 	tp.Repeat(2, 4, 500, func(i int) {
-		sp := SvcSpec{ID: i, Root: c12Roots[rootPerm[i]], Dynamic: true}
+		sp := SvcSpec{ID: i, Root: c12Roots[rootPerm[i]], Dynamic: tp.G(5) != 4}
 		subPerm := tp.Perm(len(c12Subs))
 		nInit := 0
 		tp.Repeat(1, 5, 600, func(k int) {
@@ -73,6 +73,9 @@ func genC12(x *Ctx) *c12Scen {
 			}
 			sp.Routes = append(sp.Routes, r)
 		})
+		if !sp.Dynamic {
+			nInit = len(sp.Routes)
+		}
 		sc.InitR[i] = nInit
 		if tp.G(3) != 0 {
 			sc.Members = append(sc.Members, i)
@@ -131,7 +134,10 @@ func genC12(x *Ctx) *c12Scen {
 					ops = append(ops, AdminOp{Kind: "add", Svc: sid})
 					member[sid] = true
 				}
-			case 2, 3, 6, 7: // toggle a route
+			case 2, 3, 6, 7: // toggle a route (only legal while serving on a service with dynamic routes)
+				if !sp.Dynamic {
+					return
+				}
 				r := sp.Routes[tp.G(len(sp.Routes))]
 				if present[r.ID] {
 					ops = append(ops, AdminOp{Kind: "unroute", Svc: sid, Route: r.ID})
